@@ -37,6 +37,56 @@ class _Normalise(ast.NodeTransformer):
         new = ast.Assign(targets=[node.target], value=node.value, type_comment=None)
         return ast.copy_location(new, node)
 
+    def visit_Assign(self, node):
+        """`a, b, c = (E(v) for v in <literal sequence / range(constants)>)`  is  `a = E(v0); b = E(v1); c = E(v2)`: the
+        comprehension is consumed in order by the unpacking (same evaluation order), and nothing else can observe v."""
+        self.generic_visit(node)
+        import copy
+        if len(node.targets) != 1 or not isinstance(node.targets[0], (ast.Tuple, ast.List)):
+            return node
+        tgts = node.targets[0].elts
+        v = node.value
+        if not all(isinstance(t, ast.Name) for t in tgts) or not isinstance(v, (ast.GeneratorExp, ast.ListComp)) or len(v.generators) != 1:
+            return node
+        gen = v.generators[0]
+        if gen.ifs or gen.is_async or not isinstance(gen.target, ast.Name):
+            return node
+        var = gen.target.id
+        it = gen.iter
+        values = None
+        try:
+            if isinstance(it, ast.Call) and isinstance(it.func, ast.Name) and it.func.id == 'range' and not it.keywords and 1 <= len(it.args) <= 3:
+                args = [ast.literal_eval(a) for a in it.args]
+                if all(isinstance(a, int) and not isinstance(a, bool) for a in args):
+                    values = list(range(*args))
+            elif isinstance(it, (ast.Tuple, ast.List)):
+                values = [ast.literal_eval(e) for e in it.elts]
+        except (ValueError, TypeError, SyntaxError, MemoryError, RecursionError):
+            return node
+        if values is None or len(values) != len(tgts) or len(values) > 64:
+            return node
+        # v must not be rebound inside the element expression (nested comprehension / lambda parameter / walrus)
+        for n in ast.walk(v.elt):
+            if isinstance(n, ast.Name) and n.id == var and not isinstance(n.ctx, ast.Load):
+                return node
+            if isinstance(n, ast.arg) and n.arg == var:
+                return node
+        names = {t.id for t in tgts}
+        if var in names or any(isinstance(n, ast.Name) and n.id in names for n in ast.walk(v.elt)):
+            return node                   # sequential assignments would let a later element see an earlier target
+        out = []
+        for t, val in zip(tgts, values):
+            elt = copy.deepcopy(v.elt)
+
+            class Sub(ast.NodeTransformer):
+                def visit_Name(self, n):
+                    if n.id == var and isinstance(n.ctx, ast.Load):
+                        return ast.copy_location(ast.Constant(value=val), n)
+                    return n
+            elt = Sub().visit(elt)
+            out.append(ast.copy_location(ast.Assign(targets=[ast.Name(id=t.id, ctx=ast.Store())], value=elt, type_comment=None), node))
+        return out
+
     def _fn(self, node):
         self.generic_visit(node)
         node.returns = None
@@ -52,8 +102,119 @@ class _Normalise(ast.NodeTransformer):
     visit_AsyncFunctionDef = _fn
 
 
+ACC = '_collected'
+
+
+def _own_nodes(fn):
+    """Nodes of a function body that belong to the function itself (not to nested functions / lambdas / classes)."""
+    todo = list(fn.body)
+    while todo:
+        n = todo.pop()
+        yield n
+        for c in ast.iter_child_nodes(n):
+            if not isinstance(c, (ast.FunctionDef, ast.AsyncFunctionDef, ast.Lambda, ast.ClassDef)):
+                todo.append(c)
+
+
+class _YieldToAppend(ast.NodeTransformer):
+    def visit_FunctionDef(self, node):
+        return node
+
+    visit_AsyncFunctionDef = visit_Lambda = visit_ClassDef = visit_FunctionDef
+
+    def visit_Expr(self, node):
+        v = node.value
+        if isinstance(v, ast.Yield):
+            arg = v.value if v.value is not None else ast.Constant(value=None)
+            call = ast.Call(func=ast.Attribute(value=ast.Name(id=ACC, ctx=ast.Load()), attr='append', ctx=ast.Load()), args=[arg], keywords=[])
+            return ast.copy_location(ast.Expr(value=ast.copy_location(call, node)), node)
+        if isinstance(v, ast.YieldFrom):
+            call = ast.Call(func=ast.Attribute(value=ast.Name(id=ACC, ctx=ast.Load()), attr='extend', ctx=ast.Load()), args=[v.value], keywords=[])
+            return ast.copy_location(ast.Expr(value=ast.copy_location(call, node)), node)
+        return node
+
+    def visit_Return(self, node):
+        if node.value is None:
+            return ast.copy_location(ast.Return(value=ast.Name(id=ACC, ctx=ast.Load())), node)
+        return node
+
+
+def _collected_generator(fn, funcs):
+    """`def f(..): return list(g(..))` with g a module-level generator function whose yields are all statements: the equivalent
+    eager body of f (`_collected = []`, every `yield x` an append, `return _collected`), or None.  list() consumes the generator
+    on the spot, so order of effects and result are the same."""
+    import copy
+    body = list(fn.body)
+    doc = []
+    if body and isinstance(body[0], ast.Expr) and isinstance(body[0].value, ast.Constant) and isinstance(body[0].value.value, str):
+        doc, body = body[:1], body[1:]
+    if len(body) != 1 or not isinstance(body[0], ast.Return) or body[0].value is None:
+        return None
+    v = body[0].value
+    if isinstance(v, ast.Call) and isinstance(v.func, ast.Name) and v.func.id == 'list' and len(v.args) == 1 and not v.keywords:
+        inner = v.args[0]
+    elif isinstance(v, ast.List) and len(v.elts) == 1 and isinstance(v.elts[0], ast.Starred):
+        inner = v.elts[0].value
+    else:
+        return None
+    if not (isinstance(inner, ast.Call) and isinstance(inner.func, ast.Name)):
+        return None
+    g = funcs.get(inner.func.id)
+    if g is None or g is fn or g.decorator_list or not isinstance(g, ast.FunctionDef):
+        return None
+    own = list(_own_nodes(g))
+    yields = [n for n in own if isinstance(n, (ast.Yield, ast.YieldFrom))]
+    if not yields:
+        return None
+    stmt_yields = {id(n.value) for n in own if isinstance(n, ast.Expr) and isinstance(n.value, (ast.Yield, ast.YieldFrom))}
+    if any(id(y) not in stmt_yields for y in yields):
+        return None                       # a yield whose value is used (send protocol)
+    if any(isinstance(n, ast.Return) and n.value is not None for n in own):
+        return None
+    if any(isinstance(n, ast.Name) and n.id == ACC for n in ast.walk(g)):
+        return None
+    a = g.args
+    if a.vararg or a.kwarg or a.posonlyargs or a.kwonlyargs or any(isinstance(x, ast.Starred) for x in inner.args) or any(k.arg is None for k in inner.keywords):
+        return None
+    params = [x.arg for x in a.args]
+    bound = {}
+    if len(inner.args) > len(params):
+        return None
+    for name, arg in zip(params, inner.args):
+        bound[name] = arg
+    for k in inner.keywords:
+        if k.arg not in params or k.arg in bound:
+            return None
+        bound[k.arg] = k.value
+    defaults = dict(zip(params[len(params) - len(a.defaults):], a.defaults))
+    for name in params:
+        if name not in bound:
+            if name not in defaults:
+                return None
+            bound[name] = defaults[name]
+    pre = []
+    if not all(isinstance(bound[n], ast.Name) and bound[n].id == n for n in params):
+        tgt = ast.Tuple(elts=[ast.Name(id=n, ctx=ast.Store()) for n in params], ctx=ast.Store())
+        val = ast.Tuple(elts=[bound[n] for n in params], ctx=ast.Load())
+        pre = [ast.copy_location(ast.Assign(targets=[tgt], value=val, type_comment=None), body[0])]
+    init = ast.copy_location(ast.Assign(targets=[ast.Name(id=ACC, ctx=ast.Store())], value=ast.List(elts=[], ctx=ast.Load()), type_comment=None), body[0])
+    gbody = [ _YieldToAppend().visit(copy.deepcopy(st)) for st in g.body]
+    if gbody and isinstance(gbody[0], ast.Expr) and isinstance(gbody[0].value, ast.Constant) and isinstance(gbody[0].value.value, str):
+        gbody = gbody[1:]
+    last = g.body[-1]
+    ret = ast.Return(value=ast.Name(id=ACC, ctx=ast.Load()))
+    ret.lineno = ret.end_lineno = getattr(last, 'end_lineno', last.lineno)
+    ret.col_offset = ret.end_col_offset = 0
+    return doc + pre + [init] + gbody + [ret]
+
+
 def normalise_tree(tree):
     tree = _Normalise().visit(tree)
+    funcs = {n.name: n for n in tree.body if isinstance(n, ast.FunctionDef)}
+    for fn in list(funcs.values()):
+        new = _collected_generator(fn, funcs)
+        if new is not None:
+            fn.body = new
     ast.fix_missing_locations(tree)
     return tree
 
